@@ -262,7 +262,7 @@ def _reach_density(sess, name, pc, path=None):
             if z3.is_rational_value(args[0]):
                 roots.append((r, z3.Sqrt(args[0])))
     for a, b in list(it.permutations(_UNIT_POOL[:5], 2)):
-        sub = roots + [(z3.Real(f"d0{c}"), z3.Q(v.numerator, v.denominator)) for c, v in zip("xyz", a)] + [(z3.Real(f"d1{c}"), z3.Q(v.numerator, v.denominator)) for c, v in zip("xyz", b)]
+        sub = roots + [(z3.Real("w"), z3.RealVal(1))] + [(z3.Real(f"d0{c}"), z3.Q(v.numerator, v.denominator)) for c, v in zip("xyz", a)] + [(z3.Real(f"d1{c}"), z3.Q(v.numerator, v.denominator)) for c, v in zip("xyz", b)]
         if z3.is_true(z3.simplify(z3.substitute(conj, *sub))):  # ground formula: evaluated exactly (algebraic numbers included)
             sess.reach.append(solve.QueryResult(name, "sat", None, 0.0, {"witness": "exact rational data " + str([tuple(map(str, a)), tuple(map(str, b))])}))
             return True
@@ -273,7 +273,7 @@ def t_density(sess, kernel, axial):
     mods = pydrex_modules()
     stats, geo = mods["stats"], mods["geometry"]
     sess.encode(stats.point_density, stats.SPHERICAL_COUNTING_KERNELS[kernel])
-    sess.bounds["density"] = "gridsteps = 3 (9 counters), 2 data points on the unit sphere, scalar weight 1, each of the five kernels; non-zero raw grid mean assumed"
+    sess.bounds["density"] = "gridsteps = 3 (9 counters), 2 data points on the unit sphere, any positive scalar weight, each of the five kernels; non-zero raw grid mean assumed"
     sess.assume_env("np.exp is an uninterpreted positive function (same argument -> same value)")
     sess.outside_claim("grid sizes beyond 3x3, more than 2 data points, array weights; data for which the raw grid mean is exactly 0 (normalisation undefined)")
 
@@ -281,11 +281,15 @@ def t_density(sess, kernel, axial):
         xs = sarr(np.array([d[0] for d in data], dtype=object))
         ys = sarr(np.array([d[1] for d in data], dtype=object))
         zs = sarr(np.array([d[2] for d in data], dtype=object))
-        return stats.point_density(xs, ys, zs, gridsteps=3, kernel=kernel, axial=axial)
+        return stats.point_density(xs, ys, zs, gridsteps=3, kernel=kernel, axial=axial, weights=wsym[0])
 
     holder = {}
+    wsym = [1]
 
     def fn():
+        w = real("w")  # scalar weight of the data: any positive real (small ones make the raw grid mean negative)
+        sym.ctx().assume((w > 0).z3())
+        wsym[0] = w
         d = []
         for g in range(2):
             v = [real(f"d{g}{c}") for c in "xyz"]
